@@ -83,14 +83,14 @@ Qed.
 
 (* ================================================================== same-batch cancel (TimerModel) *)
 From Coq Require Import ZArith Lia Sorted Arith Permutation.
-From Muduo Require Import Gen_Consts Gen_C06 C06_Model C06_Proofs C06_Hist.
+From Muduo Require Import Gen_Consts Gen_C06 C06_Model C06_Proofs C06_Hist C06_Order C06_Marshal.
 Local Open Scope Z_scope.
 
 (* cancelingTimers_ only grows while the callbacks of a batch run *)
 Lemma cb_step_canceling : forall st c st' ev, cb_step st c = Ok (st', ev) ->
   forall k, In k (canceling st) -> In k (canceling st').
 Proof.
-  intros st c st' ev H k Hk. destruct c as [d|w iv a|a s|w iv a|a s]; cbn [cb_step] in H.
+  intros st c st' ev H k Hk. destruct c as [d|w iv a|a s|w iv a|a s|w iv a|a|cs]; cbn [cb_step] in H.
   - destruct (d <? 0); inversion H; subst. exact Hk.
   - destruct (alloc st w iv a) as [[st1 s]| |] eqn:EA; cbn [bind] in H; try discriminate.
     destruct (add_in_loop st1 a) as [[st2 e]| |] eqn:EL; cbn [bind] in H; try discriminate.
@@ -105,6 +105,10 @@ Proof.
     + destruct (calling st); inversion EC; subst; [|exact Hk]. cbn. apply kadd_in. auto.
   - destruct (alloc st w iv a) as [[st1 s]| |] eqn:EA; cbn [bind] in H; try discriminate. inversion H; subst.
     destruct (alloc_shape _ _ _ _ _ _ EA) as (_ & _ & _ & _ & _ & _ & Ec & _). cbn. rewrite Ec. exact Hk.
+  - inversion H; subst. exact Hk.
+  - destruct (alloc st w iv a) as [[st1 s]| |] eqn:EA; cbn [bind] in H; try discriminate. inversion H; subst.
+    destruct (alloc_shape _ _ _ _ _ _ EA) as (_ & _ & _ & _ & _ & _ & Ec & _). cbn. rewrite Ec. exact Hk.
+  - destruct (zmem a (inflight st)); inversion H; subst. exact Hk.
   - inversion H; subst. exact Hk.
 Qed.
 Lemma cb_run_canceling : forall cs st st' ev, cb_run st cs = Ok (st', ev) ->
@@ -137,7 +141,7 @@ Proof.
   destruct (kmem (a, s) (active st)) eqn:KM; [apply kmem_iff in KM; exfalso; exact (det_not_active st a s I Db KM)|].
   rewrite C. reflexivity.
 Qed.
-Lemma cb_run_cancel_marks : forall cs st X st' ev a s, Inv st -> DInv st (X ++ padds (pending st)) -> In a X ->
+Lemma cb_run_cancel_marks : forall cs st X st' ev a s, Inv st -> DInv st (X ++ detq st) -> In a X ->
   calling st = true -> In (CCancel a s) cs -> cb_run st cs = Ok (st', ev) -> In (a, s) (canceling st').
 Proof.
   induction cs as [|c r IH]; intros st X st' ev a s I D Ha C Hc H; [contradiction|]. cbn [cb_run] in H.
@@ -156,7 +160,7 @@ Proof.
 Qed.
 
 Lemma run_cbs_cancel_marks : forall ex st script now X st' ev a s i g,
-  Inv st -> DInv st (X ++ padds (pending st)) -> incl (map snd ex) X -> In a X -> calling st = true ->
+  Inv st -> DInv st (X ++ detq st) -> incl (map snd ex) X -> In a X -> calling st = true ->
   nth_error script i = Some g -> (i < length ex)%nat -> In (CCancel a s) g ->
   run_cbs st ex script now = Ok (st', ev) -> In (a, s) (canceling st').
 Proof.
@@ -291,7 +295,7 @@ Proof.
     assert (0 < d1) by (eapply (i_pos _ _ _ _ I); rewrite Eapp; left; eauto).
     pose proof (Lex d1 a1 (or_introl eq_refl)). lia. }
   assert (G6 : gone st6 (o_seq o)).
-  { eapply (reset_loop_cancelled ex (set_calling st4 false) (clk st) (padds (pending st4)) st6 a o); eauto. }
+  { eapply (reset_loop_cancelled ex (set_calling st4 false) (clk st) (detq st4) st6 a o); eauto. }
   assert (Gn : gone st' (o_seq o)) by (unfold gone in *; rewrite Eh, En; exact G6).
   pose proof (fire_good st script T) as GT. rewrite HF in GT. cbn [good fst] in GT. destruct GT as (I' & _).
   destruct (none_lost _ _ _ _ _ _ _ H HF _ _ Hi Le) as (o2 & t & G2 & HR). rewrite G in G2. inversion G2; subst o2.
@@ -303,23 +307,24 @@ Qed.
 
 (* a cancel issued from a foreign thread (queued as a functor) takes effect when doPendingFunctors runs it:
    if the id is registered when the batch of functors starts, it is dead when the batch ends *)
-Lemma run_functors_cancels : forall fs st st' ev a o, Inv st -> DInv st (padds fs) ->
+Lemma run_functors_cancels : forall fs st st' ev a o, Inv st -> DInv st (padds fs ++ detq st) ->
   hget a (heap st) = Some o -> In (o_exp o, a) (timers st) -> In (PCancel a (o_seq o)) fs ->
   run_functors st fs = Ok (st', ev) -> gone st' (o_seq o).
 Proof.
-  induction fs as [|[b|b s] r IH]; intros st st' ev a o I D G Hi Hc H; [contradiction| |]; cbn [run_functors] in H.
+  induction fs as [|[b|b s|cs] r IH]; intros st st' ev a o I D G Hi Hc H; [contradiction| | |]; cbn [run_functors] in H.
   - destruct Hc as [Hc|Hc]; [discriminate|].
-    cbn [padds] in D. destruct D as [N Dt]. inversion N as [|x l NIb N']; subst.
+    cbn [padds app] in D. destruct D as [N Dt]. inversion N as [|x l NIb N']; subst.
     destruct (Dt b (or_introl eq_refl)) as [[ob [Gb Pob]] NDb].
-    assert (D' : DInv st (padds r)) by (split; auto; intros c Hc'; apply Dt; right; auto).
+    assert (D' : DInv st (padds r ++ detq st)) by (split; auto; intros c Hc'; apply Dt; right; auto).
     pose proof (add_in_loop_good st b ob _ I Gb NDb Pob D' NIb) as GA.
     destruct (add_in_loop st b) as [[st1 e1]| |] eqn:E1; cbn [bind good] in *; try discriminate.
     destruct (run_functors st1 r) as [[st2 e2]| |] eqn:E2; cbn [bind] in H; try discriminate.
-    inversion H; subst. destruct GA as (I1 & D1 & _ & _ & Eh & _). cbn [fst] in *.
+    inversion H; subst. destruct GA as (I1 & D1 & _ & F1 & Eh & _). cbn [fst] in *.
+    rewrite <- (detq_frame _ _ F1) in D1.
     eapply (IH st1 st' e2 a o I1 D1); eauto; [rewrite Eh; auto | eapply add_in_loop_timers; eauto].
   - cbn [padds] in D. pose proof (cancel_good st b s _ I D) as GC.
     destruct (cancel_in_loop st b s) as [st1| |] eqn:E1; cbn [bind good] in *; try discriminate.
-    destruct GC as (I1 & D1 & _ & _).
+    destruct GC as (I1 & D1 & _ & F1). rewrite <- (detq_frame _ _ F1) in D1.
     assert (E1' : cb_step st (CCancel b s) = Ok (st1, [])) by (cbn [cb_step]; rewrite E1; reflexivity).
     destruct (cb_step_obj _ _ _ _ _ _ I G E1') as [[G' T']|[_ Gn]].
     + destruct Hc as [Hc|Hc].
@@ -332,6 +337,14 @@ Proof.
         inversion E1; subst. cbn in G'. rewrite hget_hdel_same in G'. discriminate.
       * eapply (IH st1 st' ev a o I1 D1); eauto.
     + eapply run_functors_gone; eauto.
+  - destruct Hc as [Hc|Hc]; [discriminate|].
+    cbn [padds] in D. pose proof (cb_run_good cs st (padds r) I D) as GC.
+    destruct (cb_run st cs) as [[st1 e1]| |] eqn:E1; cbn [bind good] in *; try discriminate.
+    destruct (run_functors st1 r) as [[st2 e2]| |] eqn:E2; cbn [bind] in H; try discriminate.
+    inversion H; subst. destruct GC as (I1 & D1 & _ & _). cbn [fst] in *.
+    destruct (cb_run_reg _ _ _ _ _ _ _ _ I D G Hi E1) as [[G' Hi']|Gn].
+    + eapply (IH st1 st' e2 a o I1 D1); eauto.
+    + eapply run_functors_gone; eauto.
 Qed.
 
 Lemma foreign_cancel_stops : forall c ops st evs a o st' ev, run (init c) ops = Ok (st, evs) ->
@@ -340,5 +353,68 @@ Lemma foreign_cancel_stops : forall c ops st evs a o st' ev, run (init c) ops = 
 Proof.
   intros c ops st evs a o st' ev H G Hi Hc HS. destruct (reach_top _ _ _ _ H) as (I & D & _). cbn [step] in HS. split.
   - exact (run_functors_cancels (pending st) (set_pending st []) st' ev a o I D G Hi Hc HS).
+  - destruct (run_functors_shape _ _ _ _ HS) as (_ & NR & _). intros dl now t. eapply rlog_nil_norun; eauto.
+Qed.
+
+(* ================================================================== marshalling: queue order *)
+(* FIFO: add(id) ... cancel(id) queued in this order (e.g. by the same foreign thread) are processed in
+   this order, so the cancel finds the timer: it is dead when the batch ends and never ran.  (The
+   refuted boundary is C07-b: a cancel that by-passes the queue.) *)
+Lemma run_functors_add_then_cancel : forall l1 fs2 st st' ev a o, Inv st -> DInv st (padds (l1 ++ PAdd a :: fs2) ++ detq st) ->
+  hget a (heap st) = Some o -> In (PCancel a (o_seq o)) fs2 ->
+  run_functors st (l1 ++ PAdd a :: fs2) = Ok (st', ev) -> gone st' (o_seq o).
+Proof.
+  induction l1 as [|[b|b s|cs] r IH]; intros fs2 st st' ev a o I D G Hc H; cbn [app run_functors] in H.
+  - cbn [app padds] in D. pose proof D as [N Dt]. inversion N as [|x l NIb N']; subst.
+    destruct (Dt a (or_introl eq_refl)) as [[ob [Gb Pob]] NDb]. rewrite G in Gb. inversion Gb; subst ob.
+    assert (D' : DInv st (padds fs2 ++ detq st)) by (split; auto; intros c Hc'; apply Dt; right; auto).
+    pose proof (add_in_loop_good st a o _ I G NDb Pob D' NIb) as GA.
+    destruct (add_in_loop st a) as [[st1 e1]| |] eqn:E1; cbn [bind good] in *; try discriminate.
+    destruct (run_functors st1 fs2) as [[st2 e2]| |] eqn:E2; cbn [bind] in H; try discriminate.
+    inversion H; subst. destruct GA as (I1 & D1 & _ & F1 & Eh & _). cbn [fst] in *.
+    rewrite <- (detq_frame _ _ F1) in D1.
+    assert (Hi1 : In (o_exp o, a) (timers st1)).
+    { unfold add_in_loop in E1.
+      destruct (insert_shape _ _ _ I G NDb Pob) as (t' & a' & Ei & _ & M & _). rewrite Ei in E1. cbn [bind] in E1.
+      destruct (match timers st with [] => true | (d, _) :: _ => o_exp o <? d end).
+      - destruct (deref (set_sets st t' a') a) as [oo| |]; cbn [bind] in E1; try discriminate.
+        unfold reset_timerfd in E1. inversion E1; subst. unfold settime.
+        destruct (_ =? 0); [|destruct (_ <? 0)]; cbn; apply M; auto.
+      - inversion E1; subst. cbn. apply M; auto. }
+    eapply (run_functors_cancels fs2 st1 st' e2 a o I1 D1); eauto. rewrite Eh; auto.
+  - cbn [app padds] in D. pose proof D as [N Dt]. inversion N as [|x l NIb N']; subst.
+    destruct (Dt b (or_introl eq_refl)) as [[ob [Gb Pob]] NDb].
+    assert (D' : DInv st (padds (r ++ PAdd a :: fs2) ++ detq st)) by (split; auto; intros c Hc'; apply Dt; right; auto).
+    pose proof (add_in_loop_good st b ob _ I Gb NDb Pob D' NIb) as GA.
+    destruct (add_in_loop st b) as [[st1 e1]| |] eqn:E1; cbn [bind good] in *; try discriminate.
+    destruct (run_functors st1 (r ++ PAdd a :: fs2)) as [[st2 e2]| |] eqn:E2; cbn [bind] in H; try discriminate.
+    inversion H; subst. destruct GA as (I1 & D1 & _ & F1 & Eh & _). cbn [fst] in *.
+    rewrite <- (detq_frame _ _ F1) in D1. eapply (IH fs2 st1 st' e2 a o I1 D1); eauto. rewrite Eh; auto.
+  - cbn [app padds] in D. pose proof (cancel_good st b s _ I D) as GC.
+    destruct (cancel_in_loop st b s) as [st1| |] eqn:E1; cbn [bind good] in *; try discriminate.
+    destruct GC as (I1 & D1 & _ & F1). rewrite <- (detq_frame _ _ F1) in D1.
+    assert (E1' : cb_step st (CCancel b s) = Ok (st1, [])) by (cbn [cb_step]; rewrite E1; reflexivity).
+    assert (Da : det st a).
+    { apply (proj2 D). apply in_or_app. left. rewrite padds_app. apply in_or_app. right. left. auto. }
+    destruct (cb_step_obj _ _ _ _ _ _ I G E1') as [[G' _]|[HA _]]; [|exfalso; exact (det_not_active st a _ I Da HA)].
+    eapply (IH fs2 st1 st' ev a o I1 D1); eauto.
+  - cbn [app padds] in D. pose proof (cb_run_good cs st (padds (r ++ PAdd a :: fs2)) I D) as GC.
+    destruct (cb_run st cs) as [[st1 e1]| |] eqn:E1; cbn [bind good] in *; try discriminate.
+    destruct (run_functors st1 (r ++ PAdd a :: fs2)) as [[st2 e2]| |] eqn:E2; cbn [bind] in H; try discriminate.
+    inversion H; subst. destruct GC as (I1 & D1 & _ & _). cbn [fst] in *.
+    assert (HaX : In a (padds (r ++ PAdd a :: fs2))) by (rewrite padds_app; apply in_or_app; right; left; auto).
+    assert (G1 : hget a (heap st1) = Some o) by (rewrite (cb_run_frame _ _ _ _ _ _ I D HaX E1); auto).
+    eapply (IH fs2 st1 st' e2 a o I1 D1); eauto.
+Qed.
+
+Lemma foreign_add_then_cancel : forall c ops st evs l1 l2 a o st' ev, run (init c) ops = Ok (st, evs) ->
+  pending st = l1 ++ PAdd a :: l2 -> In (PCancel a (o_seq o)) l2 -> hget a (heap st) = Some o ->
+  step st RunPending = Ok (st', ev) ->
+  gone st' (o_seq o) /\ (forall dl now t, ~ In (ERun (o_seq o) dl now t) ev).
+Proof.
+  intros c ops st evs l1 l2 a o st' ev H Ep Hc G HS. destruct (reach_top _ _ _ _ H) as (I & D & _). cbn [step] in HS.
+  rewrite Ep in HS. split.
+  - refine (run_functors_add_then_cancel l1 l2 (set_pending st []) st' ev a o I _ G Hc HS).
+    rewrite <- Ep. exact D.
   - destruct (run_functors_shape _ _ _ _ HS) as (_ & NR & _). intros dl now t. eapply rlog_nil_norun; eauto.
 Qed.
